@@ -369,7 +369,7 @@ def run_case(ta, cs, stats):
             res.append(mk("bollinger_bands", "lowerband", "lin", l4, ci, 4, series, D_params(kw), xa=m4, xb=d4, ca=1, cb=-dn, cd=1))
         res.append(mk("bollinger_bands", "middleband", "order", toks(r.middleband, 4), ci, 4, series, D_params(kw),
                       xa=toks(r.upperband, 4), xb=toks(r.lowerband, 4)))
-        named = call(ta, stats, MA_NAMES[mt], c, period=p, source_type=src)
+        named = named_ma(ta, stats, mt, c, p, src)
         res.append(mk("bollinger_bands", "middleband", "eq", toks(r.middleband, 4), ci, 4, series, D_params(kw),
                       xa=toks(named, 4), tol=0))
     elif kind == "keltner":
@@ -384,7 +384,7 @@ def run_case(ta, cs, stats):
         res.append(mk("keltner", "lowerband", "lin", l, ci, 4, series, D_params(kw), xa=m, xb=at,
                       ca=fr.denominator, cb=-fr.numerator, cd=fr.denominator))
         res.append(mk("keltner", "middleband", "order", m, ci, 4, series, D_params(kw), xa=u, xb=l))
-        named = call(ta, stats, MA_NAMES[mt], c, period=p, source_type=src)
+        named = named_ma(ta, stats, mt, c, p, src)
         res.append(mk("keltner", "middleband", "eq", m, ci, 4, series, D_params(kw), xa=toks(named, 4), tol=0))
     elif kind == "donchian":
         p = cs["p"]
@@ -436,6 +436,13 @@ def run_case(ta, cs, stats):
     for r in res:
         r["case"] = cs
     return res
+
+
+def named_ma(ta, stats, mt, c, p, src):
+    kw = {"source_type": src}
+    if mt not in NO_PERIOD:
+        kw["period"] = p
+    return call(ta, stats, MA_NAMES[mt], c, **kw)
 
 
 def D_params(kw):
@@ -575,6 +582,25 @@ def plan(ctx):
         for mlt, mt in ([(2, 1), (1.5, 0), (2.5, 2), (1, 12)]):
             j += 1
             cases.append({"kind": "keltner", "p": p, "m": mlt, "matype": mt, "src": rng.choice(PRICE_SRC), "series": pick_series(j)})
+    # the product matype x source type, in particular the volume-weighted types (24 vwma, 29 vwap), which take the candles
+    # instead of the extracted source and must still honour source_type
+    for mt in ([24, 29, 1] if quick else [24, 29, 0, 1, 2, 12, 23]):
+        for src in (["hl2", "hlc3", "ohlc4", "high", "low"] if quick or mt in (24, 29) else ["hl2", "low"]):
+            j += 1
+            cases.append({"kind": "keltner", "p": rng.choice([5, 14, 20]), "m": rng.choice([1, 2, 1.5]), "matype": mt, "src": src,
+                          "series": pick_series(j)})
+            if quick and mt == 1:
+                continue
+            j += 1
+            cases.append({"kind": "bollinger", "p": rng.choice([5, 14, 20]), "up": 2, "dn": 2, "matype": mt, "src": src,
+                          "series": pick_series(j), "cap": (5, 60)})
+            if mt in (24, 29):
+                j += 1
+                cases.append({"kind": "ma", "matype": mt, "p": rng.choice([5, 14, 30]), "src": src,
+                              "series": (kinds[j % 3], 200, 1 + j % 3)})
+                j += 1
+                cases.append({"kind": "ma_single", "matype": mt, "p": 14, "src": src,
+                              "lens": [200, 240, 241, 300, 400, 700, 1000], "series": (["random", "trend"][j % 2], 1000, 1 + j % 3)})
     for p in ([2, 20] if quick else [2, 3, 5, 10, 20, 40, 60]):
         j += 1
         cases.append({"kind": "donchian", "p": p, "series": pick_series(j)})
